@@ -9,6 +9,20 @@ kind == "fuzz": native go fuzzing (thorough only): fuzz (target), fuzztime.
 Q, T = "quick", "thorough"
 
 PROPS = {
+    "C04": {"engines": [
+        {"name": "views", "pkg": "speaker", "run": "^TestVerifC04Views$",
+         "checks": {Q: 30000, T: 3200000}, "shards": {Q: 2, T: 16}},
+    ]},
+    "C10": {"engines": [
+        {"name": "views", "pkg": "speaker", "run": "^TestVerifC10Views$",
+         "checks": {Q: 40000, T: 3200000}, "shards": {Q: 2, T: 16}},
+    ]},
+    "C12": {"engines": [
+        {"name": "perturb", "pkg": "speaker", "run": "^TestVerifC12Perturb$",
+         "checks": {Q: 20000, T: 1600000}, "shards": {Q: 2, T: 16}},
+        {"name": "exhaustive-subsets", "pkg": "speaker", "run": "^TestVerifC12Exhaustive$", "rapid": False,
+         "checks": {Q: 1, T: 1}, "shards": {Q: 1, T: 1}},
+    ]},
     "C07": {"engines": [
         {"name": "controller", "pkg": "controller", "run": "^TestVerifC07Ctrl$",
          "checks": {Q: 12000, T: 1600000}, "shards": {Q: 4, T: 16}},
